@@ -25,7 +25,8 @@ EXTENDS Naturals, Sequences, FiniteSets, TLC
 
 CONSTANTS MaxTokens,    \* bound on token strings (machine "strings") / postfix tokens (machine "trees")
           Mode,         \* "strings" or "trees"
-          Quant         \* TRUE: the strings machine also writes the quantifier prefix "Q" (and no line breaks)
+          Quant,        \* TRUE: the strings machine also writes the quantifier prefix "Q" (and no line breaks)
+          Deviations    \* {"QuantifierTakesFullExpression"}: the operand of Q is a whole expression (sharpness control)
 
 (* "Q" is a quantifier of a matcher over a collection - "every line :", "any line :", "every file :", "any file :" -  *)
 (* whose operand is a matcher of ANOTHER type (the element type) and is a SIMPLE expression: one primitive, a        *)
@@ -56,7 +57,9 @@ PPrim(ts, i0, len, lv) ==
   IF h \in {"T", "F"} THEN Ok(Leaf(h, i0), i0 + 1)
   ELSE IF h = "!" THEN LET r == PPrim(ts, SkipNL(ts, i0 + 1), len, lv) IN IF IsErr(r) THEN ERR ELSE Ok(NotE(r.t), r.i)
   ELSE IF h = "Q" THEN IF lv # 0 THEN ERR
-                       ELSE LET r == PPrim(ts, i0 + 1, len, 1) IN IF IsErr(r) THEN ERR ELSE Ok(QuantE(r.t), r.i)
+                       ELSE LET r == IF "QuantifierTakesFullExpression" \in Deviations THEN POr(ts, i0 + 1, len, 1)
+                                     ELSE PPrim(ts, i0 + 1, len, 1)
+                            IN IF IsErr(r) THEN ERR ELSE Ok(QuantE(r.t), r.i)
   ELSE IF h = "(" THEN LET r == POr(ts, SkipNL(ts, i0 + 1), len, lv) IN
        IF IsErr(r) THEN ERR
        ELSE LET j == SkipNL(ts, r.i) IN IF At(ts, j) = ")" THEN Ok(r.t, j + 1) ELSE ERR
